@@ -5,6 +5,7 @@ package main
 
 import (
 	"fmt"
+	"os"
 	"runtime/debug"
 	"sort"
 	"strconv"
@@ -185,7 +186,31 @@ func safely(f func()) (p string) {
 // innermost stack frame inside the library under test: "function (file:line)"
 func panicSite() string {
 	st := string(debug.Stack())
+	if os.Getenv("VERIF_DEBUG_STACK") != "" {
+		fmt.Fprintln(os.Stderr, st)
+	}
 	lines := strings.Split(st, "\n")
+	// does the panic originate inside the third-party demultiplexer?
+	third := ""
+	seenPanic := false
+	for i := 0; i < len(lines); i++ {
+		l := lines[i]
+		if strings.HasPrefix(l, "panic(") {
+			seenPanic = true
+			continue
+		}
+		if !seenPanic || strings.HasPrefix(l, "\t") {
+			continue
+		}
+		if strings.HasPrefix(l, "github.com/asticode/go-astisub.") {
+			break
+		}
+		if strings.HasPrefix(l, "github.com/asticode/go-astits.") {
+			third = " [inside the third-party demultiplexer]"
+			break
+		}
+	}
+	defer func() { _ = third }()
 	for i := 0; i+1 < len(lines); i++ {
 		l := lines[i]
 		if strings.HasPrefix(l, "github.com/asticode/go-astisub.") {
@@ -201,10 +226,10 @@ func panicSite() string {
 			if k := strings.LastIndex(loc, "/"); k >= 0 {
 				loc = loc[k+1:]
 			}
-			return fn + " (" + loc + ")"
+			return fn + " (" + loc + ")" + third
 		}
 	}
-	return "unknown site"
+	return "unknown site" + third
 }
 
 // random cue list: n cues; grid: time unit; maxT: number of units
